@@ -130,3 +130,26 @@ def check_translated_brute(ctx, case, exprs, n_units, table, null, res, scale):
     if bad:
         ctx.mismatch("the skeleton translated from the source (harness/translate_skel.py -> lean/GenB) %s" % bad, case, impl=res, model=ans,
                      failing_input=False, broken="corr:GenB.shapley_bruteforce (translator / Ds.Np)")
+
+
+def check_translated_walk(ctx, case, exprs, n_units, table, null, mean, tolerance, trunc_steps, perms, res, scale):
+    """the permutation walk of _shapley_montecarlo TRANSLATED from this tree's source (lean/GenM via genmdriver), run on every recorded
+    permutation; the average of its marginal vectors must be what the implementation returned (timeouts disabled).  A disagreement means the
+    translator / Ds.Np misrepresent the code (the implementation is compared with the definition elsewhere)."""
+    if ctx.genmdriver is None or not perms or isinstance(res, str):
+        return
+    tab = genb_table(exprs, n_units, table)
+    cols = []
+    for p in perms:
+        ans = ctx.genm({"n": n_units, "null": str(Fraction(null)), "mean": str(Fraction(mean)), "tolerance": str(Fraction(tolerance)),
+                        "truncation_steps": int(trunc_steps), "perm": [int(u) for u in p], "table": tab})
+        if ans is None or "ok" not in ans:
+            ctx.mismatch("the walk translated from the source (harness/translate_mc.py -> lean/GenM) raised where the implementation returned scores", case, impl=res, model=ans,
+                         failing_input=False, broken="corr:GenM.mc_walk (translator / Ds.Np)")
+            return
+        cols.append([Fraction(x) for x in ans["ok"]])
+    ctx.dist["translated_walk_runs"] += len(perms)
+    avg = [sum(c[i] for c in cols) / len(cols) for i in range(n_units)]
+    if not ctx.vec_close(res, avg, scale):
+        ctx.mismatch("the average of the walks translated from the source (harness/translate_mc.py -> lean/GenM) differs from the implementation's scores", case,
+                     impl=res, model=[str(x) for x in avg], failing_input=False, broken="corr:GenM.mc_walk (translator / Ds.Np)")
